@@ -14,7 +14,7 @@
      SPT alts p        := exists T, spt_spec alts p T
    A vote is a strict complete ranking (list N, best first); firstn k v = the k most preferred alternatives. *)
 From Coq Require Import List NArith Bool Arith Permutation.
-From PrefVerif Require Import Lib.Perms Model.Tree Proofs.Tree.
+From PrefVerif Require Import Lib.Val Lib.Perms Model.Tree Proofs.Tree Model.TreeAlgo Proofs.TreeAlgo.
 Import ListNotations.
 
 (* ---- the specification, unfolded ---- *)
@@ -152,6 +152,121 @@ Example checker_rejects :
   tree_check ex_alts [(1, 2); (2, 3); (3, 1)] = false.
 Proof. vm_compute. repeat split. Qed.
 Print Assumptions checker_rejects.
+
+(* ================================================================================================= *)
+(* ---- the ALGORITHM: Model/TreeAlgo.v mirrors is_single_peaked_on_tree / get_B / get_bottom_alts /
+   restrict_preferences as written in /repo (stale L_set within a pass, current C_set in get_B, final edge
+   when two alternatives remain), parametric in the two unspecified Python set iteration orders:
+     enumL C L   — the order in which `for a in L_set` visits the bottoms (C = current C_set),
+     pickB C a B — the member of B(a) returned by `B_a.__iter__().__next__()`.
+   admissible enumL pickB: enumL returns a duplicate-free list with the same members, pickB a member of a
+   non-empty list.  profile_on alts p: alts duplicate-free and non-empty, at least one vote, every vote a
+   permutation of alts.  All theorems: every size, every admissible pair. ---- *)
+
+Theorem admissible_unfold : forall enumL pickB,
+  admissible enumL pickB <->
+  (forall C l, NoDup (enumL C l) /\ forall x, In x (enumL C l) <-> In x l) /\
+  (forall (C : list N) (a : N) (B : list N), B <> [] -> In (pickB C a B) B).
+Proof. intros. reflexivity. Qed.
+Print Assumptions admissible_unfold.
+
+Theorem profile_on_unfold : forall alts p,
+  profile_on alts p <-> NoDup alts /\ alts <> [] /\ p <> [] /\ forall v, In v p -> Permutation alts v.
+Proof. intros. reflexivity. Qed.
+Print Assumptions profile_on_unfold.
+
+(* the while loop never exhausts fuel = number of alternatives: every pass returns False or removes an alternative *)
+Theorem trick_terminates : forall alts p enumL pickB,
+  profile_on alts p -> admissible enumL pickB -> trick enumL pickB alts p <> Err OutOfFuel.
+Proof.
+  intros alts p enumL pickB (_ & _ & Hpne & Hp) [He _]. exact (Proofs.TreeAlgo.trick_terminates alts p Hp enumL pickB He Hpne).
+Qed.
+Print Assumptions trick_terminates.
+
+(* a True answer comes with a valid tree *)
+Theorem trick_sound : forall alts p enumL pickB E,
+  profile_on alts p -> admissible enumL pickB ->
+  trick enumL pickB alts p = Ok (true, E) -> spt_check alts p E = true.
+Proof.
+  intros alts p enumL pickB E (Hnd & Hne & _ & Hp) [He Hk].
+  exact (Proofs.TreeAlgo.trick_sound alts p Hnd Hp enumL pickB He Hk E Hne).
+Qed.
+Print Assumptions trick_sound.
+
+(* Trick's theorem: a profile single-peaked on some tree is accepted, whatever the iteration orders *)
+Theorem trick_complete : forall alts p enumL pickB,
+  profile_on alts p -> admissible enumL pickB -> SPT alts p ->
+  exists E, trick enumL pickB alts p = Ok (true, E).
+Proof.
+  intros alts p enumL pickB (Hnd & _ & Hpne & Hp) [He Hk].
+  exact (Proofs.TreeAlgo.trick_complete alts p Hnd Hp enumL pickB He Hpne).
+Qed.
+Print Assumptions trick_complete.
+
+(* hence the mirror returns exactly the verdict of the reference decider, and a checked tree when True;
+   in particular a False answer means: single-peaked on no tree *)
+Theorem trick_decides : forall alts p enumL pickB,
+  profile_on alts p -> admissible enumL pickB ->
+  exists E, trick enumL pickB alts p = Ok (spt_decide alts p, E) /\
+            (spt_decide alts p = true -> spt_check alts p E = true).
+Proof. exact Proofs.TreeAlgo.trick_decides. Qed.
+Print Assumptions trick_decides.
+
+Theorem trick_false_iff : forall alts p enumL pickB,
+  profile_on alts p -> admissible enumL pickB ->
+  ((exists E, trick enumL pickB alts p = Ok (false, E)) <-> ~ SPT alts p).
+Proof.
+  intros alts p enumL pickB Hpo Ha. destruct (Proofs.TreeAlgo.trick_decides alts p enumL pickB Hpo Ha) as (E & HE & _).
+  pose proof (Proofs.Tree.spt_decide_correct alts p (proj1 Hpo)) as Hd. split.
+  - intros (E' & HE') HS. apply Hd in HS. rewrite HE in HE'. injection HE' as Hb _. congruence.
+  - intros Hn. exists E. rewrite HE. destruct (spt_decide alts p); [exfalso; apply Hn; apply Hd; reflexivity|reflexivity].
+Qed.
+Print Assumptions trick_false_iff.
+
+(* the verdict does not depend on how the two sets are iterated (the returned trees may differ) *)
+Theorem trick_choice_independent : forall alts p enumL pickB enumL' pickB',
+  profile_on alts p -> admissible enumL pickB -> admissible enumL' pickB' ->
+  exists b E E', trick enumL pickB alts p = Ok (b, E) /\ trick enumL' pickB' alts p = Ok (b, E').
+Proof. exact Proofs.TreeAlgo.trick_choice_independent. Qed.
+Print Assumptions trick_choice_independent.
+
+(* the two instantiations run by the oracle (ops c13.algo, c13.algo2) are admissible *)
+Theorem admissible_fwd : admissible enum_fwd pick_first.
+Proof. exact Proofs.TreeAlgo.admissible_fwd. Qed.
+Print Assumptions admissible_fwd.
+Theorem admissible_bwd : admissible enum_bwd pick_last.
+Proof. exact Proofs.TreeAlgo.admissible_bwd. Qed.
+Print Assumptions admissible_bwd.
+
+Example profile_on_example : profile_on ex_alts ex_star_profile.
+Proof.
+  split; [repeat constructor; cbn; intuition discriminate|]. split; [discriminate|]. split; [discriminate|].
+  intros v [<-|[<-|[<-|[]]]]; unfold ex_alts.
+  - apply Permutation_refl.
+  - apply perm_skip. apply perm_swap.
+  - apply perm_skip. eapply perm_trans; [apply perm_skip; apply perm_swap|apply perm_swap].
+Qed.
+Print Assumptions profile_on_example.
+
+(* the two instantiations on concrete inputs: same verdict, different trees; a refused profile *)
+Example trick_runs :
+  trick_fwd [1; 2; 3; 4; 5] [[1; 2; 3; 4; 5]; [3; 2; 4; 1; 5]; [4; 3; 5; 2; 1]]
+    = Ok (true, [(3, 5); (2, 1); (3, 4); (3, 2)]) /\
+  trick_bwd [1; 2; 3; 4; 5] [[2; 1; 3; 4; 5]; [2; 3; 1; 4; 5]]
+    = Ok (true, [(4, 5); (3, 4); (2, 1); (2, 3)]) /\
+  trick_fwd [1; 2; 3; 4; 5] [[2; 1; 3; 4; 5]; [2; 3; 1; 4; 5]]
+    = Ok (true, [(2, 5); (2, 4); (2, 3); (2, 1)]) /\
+  trick_fwd ex_alts [[1; 2; 3; 4]; [1; 2; 4; 3]; [3; 4; 1; 2]] = Ok (false, []) /\
+  trick_bwd ex_alts [[1; 2; 3; 4]; [1; 2; 4; 3]; [3; 4; 1; 2]] = Ok (false, []).
+Proof. vm_compute. repeat split. Qed.
+Print Assumptions trick_runs.
+
+(* the hypothesis "at least one vote" is needed: with no vote and three alternatives the set of bottoms is
+   empty, no pass removes anything and the fuel runs out — the Python loop does not terminate on such an
+   instance (observed; outside the quantifier of the property, which speaks of profiles of orders) *)
+Example trick_needs_a_vote : trick_fwd [1; 2; 3] [] = Err OutOfFuel.
+Proof. vm_compute. reflexivity. Qed.
+Print Assumptions trick_needs_a_vote.
 
 (* NOT hereditary under deletion of alternatives (so no alternative-dropping shrink / embedded-core argument is
    used for this property): every profile whose votes share their top alternative is single-peaked on the star
